@@ -39,6 +39,13 @@ def main():
         ctx = base[max(0, i1 - k):i1]
         pos = [p for p in range(len(cur) - len(ctx) + 1) if cur[p:p + len(ctx)] == ctx]
         if len(pos) != 1:
+            # try the lines that FOLLOW the insertion point
+            after = base[i1:i1 + k]
+            pos2 = [p for p in range(len(cur) - len(after) + 1) if cur[p:p + len(after)] == after] if after else []
+            if len(pos2) == 1:
+                cur[pos2[0]:pos2[0]] = block
+                print("inserted %d lines before line %d" % (len(block), pos2[0] + 1))
+                continue
             print("REFUSED: anchor for an insertion of %d lines is not unique in the current translate.py (%d matches):" % (len(block), len(pos)))
             print("\n".join(ctx))
             sys.exit(1)
